@@ -571,6 +571,9 @@ func (r *Run) streamCase(v int, codec uint8, stream []byte, cuts []int, capacity
 	ctx := newCtx(codec, uint8(v))
 	var ops, outs []string
 	var got []string
+	var keptP []*protocol.Packet // delivered packets and their rendering at delivery time
+	var keptS []string
+	other := newCtx(codec, uint8(v)) // another connection of the process, packing between the chunks (shared pools)
 	prev := 0
 	failed := ""
 	for _, c := range append(cuts, len(stream)) {
@@ -585,9 +588,20 @@ func (r *Run) streamCase(v int, codec uint8, stream []byte, cuts []int, capacity
 		outs = append(outs, "FED", o)
 		for _, p := range pks {
 			got = append(got, pktOut(p))
+			keptP = append(keptP, p)
+			keptS = append(keptS, pktOut(p))
 		}
+		// an unrelated Pack on another context between two socket reads
+		implPackQuiet(v, other, uint8(len(ops)))
 		if !strings.HasPrefix(o, "OK") {
 			failed = o
+			break
+		}
+	}
+	for i, p := range keptP {
+		if now := pktOut(p); now != keptS[i] {
+			r.violate(Violation{What: "a packet already delivered by the streaming decoder changed when later bytes were fed (it aliases the receive buffer)",
+				Case: fmt.Sprintf("v%d cap=%d off=%d cuts=%v packet %d: was %.80s, is now %.80s", v, capacity, off, cuts, i, keptS[i], now)})
 			break
 		}
 	}
@@ -1152,5 +1166,17 @@ func sortStrings(a []string) {
 		for j := i; j > 0 && a[j] < a[j-1]; j-- {
 			a[j], a[j-1] = a[j-1], a[j]
 		}
+	}
+}
+
+// implPackQuiet packs a small request on ctx and discards the result (exercises the shared header pools).
+func implPackQuiet(v int, ctx *protocol.Context, n uint8) {
+	defer func() { recover() }()
+	p, err := protocol.NewPacket(ctx, protocol.RequestPacket, uint32(n), nil)
+	if err != nil {
+		return
+	}
+	if pr, err := protocol.GetProtocol(uint8(v)); err == nil {
+		pr.Pack(ctx, &p)
 	}
 }
